@@ -1,3 +1,227 @@
-/-! # C15 — property theorems (stub: not built yet) -/
+import PymtlVerif.Proofs.MetaTree
+/-!
+# C15 — replacing a component yields the same design as building it directly
+
+Property theorems about `Model/Meta.lean`. `elaborate H` is the whole-design metadata of hierarchy `H`
+(union of per-component contributions, path-prefixed); `delete` / `add` / `replace` mirror
+`_delete_component` / `_add_component` / `replace_component[_with_obj]`; `set H p N` is the hierarchy
+with the subtree at `p` replaced by `N` (the from-scratch design). `Equiv` = same entries (the Python
+containers are sets, so this is equality of the containers by name).
+
+Hypotheses:
+* `NoLoopAt H p` — no surviving component connects two signals that are both under `p` (a parent-level
+  loopback between two ports of the replaced child is not saved by `_delete_component`: both ends are
+  removed). Demonstrated on /repo as a separate finding; outside the theorems.
+* `Compatible H p N` — every name under `p` mentioned by a saved entry (cross-boundary connection,
+  block reference or constraint of a surviving component) is declared by `N` mounted at `p`: exactly
+  the condition under which `add` re-evaluates all saved names (`add … = some …`), otherwise `none`
+  (Python raises `AttributeError` in `eval`).
+-/
 namespace PV.C15
+open PV.Meta
+
+/-- the saved names resolve in the new subtree -/
+def Compatible (H : Hier) (p : Name) (N : Hier) : Prop :=
+  ((delete (elaborate H) p).2).all (resolvable p (elabAt p N)) = true
+
+/-! ## replacing = building directly -/
+
+/-- delete-then-add on the elaborated metadata holds exactly the entries of the elaboration of the
+    hierarchy with the replacement in place (unguarded form: whatever `N` declares) -/
+theorem replace_eq_build_raw (H : Hier) (p : Name) (N : Hier) (hl : NoLoopAt H p) :
+    Equiv (addRaw (delete (elaborate H) p).1 p N (delete (elaborate H) p).2)
+      (elaborate (set H p N)) := by
+  intro e
+  rw [elaborate_set]
+  unfold addRaw
+  rw [List.mem_append, delete_restore H p hl e, List.mem_append]
+
+/-- C15_replace_eq_build: for a compatible replacement `replace_component` succeeds and the resulting
+    top-level metadata is that of the design built from scratch with `N` at `p` -/
+theorem replace_eq_build (H : Hier) (p : Name) (N : Hier) (hl : NoLoopAt H p)
+    (hc : Compatible H p N) :
+    ∃ M, replace (elaborate H) (p, N) = some M ∧ Equiv M (elaborate (set H p N)) := by
+  refine ⟨addRaw (delete (elaborate H) p).1 p N (delete (elaborate H) p).2, ?_,
+    replace_eq_build_raw H p N hl⟩
+  unfold replace add
+  unfold Compatible at hc
+  simp only [hc, if_true]
+
+/-- an incompatible replacement fails (a saved name cannot be re-evaluated) and changes nothing -/
+theorem replace_incompatible (H : Hier) (p : Name) (N : Hier) (hc : ¬ Compatible H p N) :
+    replace (elaborate H) (p, N) = none := by
+  unfold replace add
+  unfold Compatible at hc
+  simp only [hc]
+  rfl
+
+/-- the same on any metadata that holds the entries of `elaborate H` (e.g. after earlier
+    replacements) -/
+theorem replace_eq_build_of_equiv (H : Hier) (p : Name) (N : Hier) (M : Meta)
+    (hM : Equiv M (elaborate H)) (hl : NoLoopAt H p) (hc : Compatible H p N) :
+    ∃ M', replace M (p, N) = some M' ∧ Equiv M' (elaborate (set H p N)) := by
+  obtain ⟨M0, h0, e0⟩ := replace_eq_build H p N hl hc
+  obtain ⟨M', h', e'⟩ := replace_congr hM.symm (p, N) h0
+  exact ⟨M', h', e'.symm.trans e0⟩
+
+/-! ## nothing of the removed component is left -/
+
+/-- after `_delete_component` no entry of any top-level container mentions a component, signal,
+    method port, block or constant under `p` (for every metadata list, not only elaborated ones) -/
+theorem delete_clean (M : Meta) (p : Name) (e : Entry) (h : e ∈ (delete M p).1) :
+    touches p e = false := by
+  simp [delete, List.mem_filter] at h
+  exact h.2
+
+/-- in the result of the replacement an entry that mentions anything under `p` is either an entry of
+    the new subtree's own elaboration, or a restored cross-boundary entry, all of whose names under
+    `p` are declared by the new subtree -/
+theorem result_touching (M : Meta) (p : Name) (N : Hier) (R : Meta)
+    (h : replace M (p, N) = some R) (e : Entry) (he : e ∈ R) (ht : touches p e = true) :
+    e ∈ elabAt p N ∨ (e ∈ restore (delete M p).2 ∧ resolvable p (elabAt p N) e = true) := by
+  unfold replace add at h
+  split at h
+  · rename_i hg
+    injection h with h
+    subst h
+    simp only [addRaw, List.mem_append] at he
+    rcases he with (he | he) | he
+    · rw [delete_clean M p e he] at ht; cases ht
+    · refine Or.inr ⟨he, ?_⟩
+      rw [List.all_eq_true] at hg
+      rcases mem_restore.1 he with h | h
+      · exact hg e h
+      · have := hg _ h
+        cases e <;> simp_all [Entry.swap, resolvable, Bool.and_comm]
+    · exact Or.inl he
+  · cases h
+
+/-- C15_nothing_left: an entry contributed by the *old* subtree (any component under `p` of `H`)
+    occurs in the result only if the new subtree contributes the very same entry -/
+theorem nothing_left (H : Hier) (p : Name) (N : Hier) (R : Meta)
+    (h : replace (elaborate H) (p, N) = some R) (e : Entry)
+    (hold : e ∈ elaborate (H.filter (fun x => under p x.1))) (he : e ∈ R) :
+    e ∈ elabAt p N := by
+  obtain ⟨x, hx, hex⟩ := mem_elaborate.1 hold
+  rw [List.mem_filter] at hx
+  have ho : owned p e = true := contrib_owned hx.2 hex
+  rcases result_touching _ p N R h e he (owned_touches ho) with h' | ⟨h', _⟩
+  · exact h'
+  · exfalso
+    rcases mem_restore.1 h' with hs | hs
+    · simp only [delete, List.mem_filter] at hs
+      rw [saved_not_owned hs.2] at ho; cases ho
+    · simp only [delete, List.mem_filter] at hs
+      -- the mirror image of an entry of the old subtree is an entry of the old subtree: owned
+      have := contrib_owned hx.2 (contrib_swap hex)
+      rw [saved_not_owned hs.2] at this; cases this
+
+/-! ## sequences of replacements -/
+
+/-- every step of the sequence is applied to a hierarchy that satisfies the hypotheses of
+    `replace_eq_build` (paths may be at any depth / list position, may repeat, may lie inside a
+    subtree installed by an earlier step) -/
+def StepsOk : Hier → List (Name × Hier) → Prop
+  | _, [] => True
+  | H, r :: rs => NoLoopAt H r.1 ∧ Compatible H r.1 r.2 ∧ StepsOk (set H r.1 r.2) rs
+
+/-- C15_sequence: folding `replace` over the metadata = elaborating the hierarchy obtained by folding
+    `set`, for any number of replacements -/
+theorem sequence (rs : List (Name × Hier)) :
+    ∀ (H : Hier) (M : Meta), Equiv M (elaborate H) → StepsOk H rs →
+      ∃ M', replaceAll M rs = some M' ∧ Equiv M' (elaborate (setAll H rs)) := by
+  induction rs with
+  | nil => intro H M hM _; exact ⟨M, rfl, hM⟩
+  | cons r rs ih =>
+    intro H M hM hs
+    obtain ⟨hl, hc, hrest⟩ := hs
+    obtain ⟨M1, h1, e1⟩ := replace_eq_build_of_equiv H r.1 r.2 M hM hl hc
+    obtain ⟨M', h', e'⟩ := ih (set H r.1 r.2) M1 e1 hrest
+    refine ⟨M', ?_, ?_⟩
+    · simp only [replaceAll]
+      rw [show r = (r.1, r.2) from rfl, h1]
+      exact h'
+    · simpa [setAll] using e'
+
+/-- in particular from the freshly elaborated design -/
+theorem sequence_elab (H : Hier) (rs : List (Name × Hier)) (hs : StepsOk H rs) :
+    ∃ M', replaceAll (elaborate H) rs = some M' ∧ Equiv M' (elaborate (setAll H rs)) :=
+  sequence rs H (elaborate H) (Equiv.refl _) hs
+
+/-! ## the code's search of the parent only is complete on disciplined hierarchies -/
+
+/-- `_delete_component` looks for references to removed signals only in the containers of the *parent*
+    of the removed component. If every component refers only to its own signals and to those of its
+    direct children, every saved entry (every entry of a surviving component that mentions something
+    under `p`) is indeed an entry of the parent of `p`. -/
+theorem saved_from_parent (H : Hier) (p : Name) (hd : ∀ x ∈ H, Disciplined x.2) (e : Entry)
+    (he : e ∈ (delete (elaborate H) p).2) :
+    ∃ x ∈ H, e ∈ contrib x.1 x.2 ∧ ∃ a, p = x.1 ++ [a] := by
+  simp only [delete, List.mem_filter] at he
+  obtain ⟨x, hx, hex⟩ := mem_elaborate.1 he.1
+  refine ⟨x, hx, hex, ?_⟩
+  cases hu : under p x.1
+  · exact PV.Meta.saved_from_parent (hd x hx) hu hex (saved_touches he.2)
+  · have := saved_not_owned he.2
+    rw [contrib_owned hu hex] at this; cases this
+
+/-! ## the path-indexed hierarchy is a tree -/
+
+/-- `Meta.set` on the flattened component tree is subtree replacement by recursion along the path
+    (sibling names distinct, `p` the path of a component): the from-scratch side of the theorems is
+    the tree with the new subtree in place -/
+theorem forest_set_flatten (t : Tree) (p : Name) (N : Tree) (hw : t.kids.Wf)
+    (hp : p = [] ∨ t.kids.has p) :
+    Equiv (elaborate (t.set p N).flatten) (elaborate (set t.flatten p N.flatten)) :=
+  elaborate_congr (Tree.set_flatten t p N hw hp)
+
+/-- replace = build, stated on trees -/
+theorem replace_eq_build_tree (t : Tree) (p : Name) (N : Tree) (hw : t.kids.Wf)
+    (hp : p = [] ∨ t.kids.has p) (hl : NoLoopAt t.flatten p) (hc : Compatible t.flatten p N.flatten) :
+    ∃ M, replace (elaborate t.flatten) (p, N.flatten) = some M ∧
+      Equiv M (elaborate (t.set p N).flatten) := by
+  obtain ⟨M, h, e⟩ := replace_eq_build t.flatten p N.flatten hl hc
+  exact ⟨M, h, e.trans (forest_set_flatten t p N hw hp).symm⟩
+
+/-! ## non-vacuity: a concrete hierarchy, replacement and sequence satisfy the hypotheses -/
+
+section Example
+
+instance (H : Hier) (p : Name) (N : Hier) : Decidable (Compatible H p N) := by
+  unfold Compatible; infer_instance
+instance (H : Hier) (p : Name) : Decidable (NoLoopAt H p) := by
+  unfold NoLoopAt NoLoop; infer_instance
+
+/-- child with an update_once block, a method port, an M constraint and a constant -/
+def exOld : Comp :=
+  { sigs := [("in0", "in"), ("out0", "out"), ("w", "wire")], mports := [("ping", "callee")],
+    blks := [⟨"b", 2, [([], "in0"), ([], "w")], [([], "out0")], []⟩],
+    mcs := [(.meth ([], "ping"), .blk "b", false)], consts := [(([], "w"), "5")] }
+def exNew : Comp :=
+  { sigs := [("in0", "in"), ("out0", "out")], blks := [⟨"x", 0, [([], "in0")], [([], "out0")], []⟩] }
+/-- parent: connects the child's input, reads its output in a block, constrains its output -/
+def exTop : Comp :=
+  { sigs := [("in0", "in"), ("out0", "out")],
+    blks := [⟨"up", 0, [(["c"], "out0")], [([], "out0")], []⟩],
+    rdu := [((["c"], "out0"), true, "up")], conns := [((["c"], "in0"), ([], "in0"))] }
+def exH : Hier := [([], exTop), (["c"], exOld)]
+def exN : Hier := [([], exNew)]
+
+example : NoLoopAt exH ["c"] := by decide
+
+example : Compatible exH ["c"] exN := by decide
+
+example : (replace (elaborate exH) (["c"], exN)).isSome = true := by decide
+
+/-- three entries cross the boundary and are saved: the connection, the block read, the constraint -/
+example : ((delete (elaborate exH) ["c"]).2).length = 3 := by decide
+
+/-- a replacement without the port the parent uses is incompatible -/
+example : ¬ Compatible exH ["c"] [([], { sigs := [("in0", "in")] })] := by decide
+
+example : StepsOk exH [(["c"], exN), (["c"], [([], exOld)])] :=
+  ⟨by decide, by decide, by decide, by decide, trivial⟩
+
+end Example
+
 end PV.C15
